@@ -10,3 +10,7 @@ _Q3 = {"C15": "quick", "C20": "quick", "C01": "quick"}
 # CaDiCaL decides these in about a minute; MiniSat does not finish the 8-error group with frames in 80 min
 GROUPS += [_m15._e("emcy_reset_silent10", "COEmcyReset", 4, _m15._DV, ["a"], timeout=1500, object_bits=12, props=_Q3, defs=["VW_OP=4", "CO_EMCY_N=10", "VW_SILENT_ONLY"], unwind_all=11, bounded=_B10, sat="cadical"),
            _m15._e("emcy_reset8", "COEmcyReset", 4, _m15._DV, ["a"], timeout=1500, object_bits=12, props=_Q3, defs=["VW_OP=4", "CO_EMCY_N=8"], unwind_all=9, sat="cadical")]
+GROUPS += [_m15._e("emcy_reset_silent16", "COEmcyReset", 4, _m15._DV, ["a"], timeout=1500, object_bits=12, props={"C15": "thorough", "C20": "thorough", "C01": "thorough"}, defs=["VW_OP=4", "CO_EMCY_N=16", "VW_SILENT_ONLY"], unwind_all=17, mem_gb=30,
+                   bounded="build configuration CO_EMCY_N=16 errors (silent reset)", sat="cadical")]
+GROUPS += [_m15._e("emcy_reset_silent32", "COEmcyReset", 4, _m15._DV, ["a"], timeout=1500, props={"X94": "quick"}, defs=["VW_OP=4", "CO_EMCY_N=32", "VW_SILENT_ONLY"], unwind_all=33, mem_gb=30, object_bits=14,
+                   bounded="build configuration CO_EMCY_N=32 errors = the default configuration (silent reset)", sat="cadical")]
